@@ -1,5 +1,5 @@
 """Per-property policy: which rules decide which clause, floors, scope, wording for the evidence."""
-from . import rules_conv, rules_table, rules_codec, rules_layout, rules_effect, rules_path, rules_reply, rules_cow, rules_node, rules_ref, rules_ident, rules_traits, rules_event, rules_iter
+from . import rules_conv, rules_table, rules_codec, rules_layout, rules_effect, rules_path, rules_reply, rules_cow, rules_node, rules_ref, rules_ident, rules_traits, rules_event, rules_iter, rules_lin
 
 import json, os
 
@@ -99,18 +99,26 @@ PROPS = {
         ],
     },
     "C13": {
-        "explanation": "ERRFX on every queue primitive (functions in the anchor files taking a non-const queue): trace-partitioned interval analysis shows no path that "
-                       "stores into the queue (fields or storage via memcpy/memmove/memset) and then returns an error. DIVZERO: every divisor in the queue files excludes 0 "
-                       "on all paths. OUTPARAM: callee summaries (which return classes leave *out unwritten) against callers that discard the result and read the local. "
-                       "STATUSPOLARITY: callees returning negative errors and positive successes are not tested by truthiness. SPLITCOPY: a destination filled by two consecutive "
-                       "copies continues where the first ended (segment copies across the wrap point).",
-        "not_decided": "deque equivalence and storage bounds of the (len,max,off) segment arithmetic (relational), e.g. the wrapped copy lengths in mpt_qpop",
-        "assumptions": [],
-        "technique": "interval analysis with trace partitioning (effect-before-refusal), divisor intervals, interprocedural out-parameter and return-value summaries",
-        "level_text": "Decides the refusal clause ('refused without changing the content') and the fault clause (no division by zero, no read of an unwritten out value) "
-                      "for all paths of the 18 queue files; not the byte-sequence equivalence.",
-        "level_note": "effects = direct stores through the queue pointer and mem* writes into it; callee effects are attributed to the callee",
+        "explanation": "LINBOUNDS: relational abstract interpretation (linear constraints over symbolic field and parameter values, pointers as region + linear offset, "
+                       "entailment by Fourier-Motzkin elimination with integer tightening / exact simplex inside the domain) of all 32 functions of the queue files from the most "
+                       "general state satisfying the data invariant INV(q): len <= max, off <= max, base = start of a storage area of max bytes. Shown for every path and every "
+                       "value of the unknowns: ACCESS each memcpy/memmove/memset/indexed store rooted in the storage, in a caller buffer with a length contract, a local array or a "
+                       "fresh allocation stays inside that area; OVERLAP memcpy ranges inside one area are disjoint; INV holds again at every return (so it is inductive over any "
+                       "history of calls); REFUSE on an error return the queue fields are unchanged; CONTENT every transfer between storage and caller buffer in pop/shift/get/set/"
+                       "push/unshift moves the logical bytes the operation names (physical offset mapped to logical index through off/max, both segments); COVER the pieces add up "
+                       "to the requested length. Callees from the queue files are analysed in the caller's context; mpt_memrev/mpt_memswap (loops: joins with affine-relation "
+                       "discovery and widening) are verified under a byte-range contract that call sites owe; the C++ wrappers use the C functions through INV-in/INV-out. "
+                       "ERRFX, DIVZERO, OUTPARAM, STATUSPOLARITY, SPLITCOPY as before (interval analysis with trace partitioning).",
+        "not_decided": "content equivalence of the in-place moves (crop in the middle, align/rotate: which byte lands where), mpt_queue_find's element walk (element-size "
+                       "multiplication is not linear), behaviour of callers that break INV from outside the queue files",
+        "assumptions": ["callers hand (len, data) buffers of at least len bytes (API contract)", "objects are at most PTRDIFF_MAX bytes", "functions outside the queue files that receive a queue keep INV (listed in the evidence)"],
+        "technique": "relational abstract interpretation (linear inequalities + region/offset pointers, inductive data invariant, context-sensitive callees, contracts for loop helpers); interval analysis with trace partitioning for the effect/fault rules",
+        "level_text": "Proves, for all inputs and all call histories that respect the API contract, that no queue function accesses memory outside the storage area or the caller's buffer, that the "
+                      "(base,len,max,off) invariant is preserved, that refused calls leave the fields alone and that the six data-transfer operations move exactly the logical byte range they name; "
+                      "not the full byte-sequence equivalence of in-place moves.",
+        "level_note": "a failed obligation is reported only when its state is exact (no loop join on the path); failures behind joins are listed as undecided in the evidence (0 today)",
         "rules": [
+            {"run": rules_lin.run_linbounds, "floor": 95, "use_anchor_files": True},
             {"run": rules_path.run_splitcopy, "floor": 2, "use_anchor_files": True},
             {"run": rules_effect.run_objects, "floor": 10, "ctx": {"records": ["mpt_queue", "queue"], "min_functions": 10}, "use_anchor_files": True},
             {"run": rules_path.run_divzero, "floor": 4, "use_anchor_files": True},
